@@ -251,15 +251,25 @@ PropOf(n, name) == CHOOSE p \in Rng(n.props) : p.name = name
 \* ------------------------------------------------------------------ validation: the set of reasons why jv does not validate against n
 \* at: the path of keys from the root of the value to the place where the reason arises
 W(r, jv, n, at) == [reason |-> r, vkind |-> jv.k, skw |-> IF n.ref # "" THEN "$ref" ELSE n.type, at |-> at]
-Overlap(jv, n) == Cardinality(KeysOf(jv) \cap PropNames(n))
+\* how many keys of the value (at any depth) the schema's properties name
+RECURSIVE Overlap(_, _), OverlapFrom(_, _, _)
+OverlapFrom(jv, n, i) ==
+  IF i > Len(jv.fields) THEN 0
+  ELSE (IF jv.fields[i].name \in PropNames(n) THEN 1 + Overlap(jv.fields[i].v, PropOf(n, jv.fields[i].name).node) ELSE 0)
+       + OverlapFrom(jv, n, i + 1)
+Overlap(jv, n) == IF jv.k # "object" THEN 0 ELSE OverlapFrom(jv, n, 1)
 RECURSIVE Whys(_, _, _)
 \* of several branches none of which validates, the reasons reported are those of the closest ones: most keys of the value
-\* named by the branch's properties, then fewest reasons
+\* named by the branch's properties, then the reasons arising deepest (a branch that fails near the root is further away
+\* than one that fails inside a nested value): lexicographic on the number of reasons per depth
+Cost(ws, base) ==
+  LET nd(dd) == Cardinality({w \in ws : (IF Len(w.at) - base >= 3 THEN 3 ELSE Len(w.at) - base) = dd}) IN
+  nd(0) * 1000000 + nd(1) * 10000 + nd(2) * 100 + nd(3)
 Closest(jv, bs, at) ==
   LET ov(i) == Overlap(jv, bs[i])
       m1 == {i \in DOMAIN bs : \A j \in DOMAIN bs : ov(i) >= ov(j)}
-      cnt(i) == Cardinality(Whys(jv, bs[i], at)) IN
-  {i \in m1 : \A j \in m1 : cnt(i) <= cnt(j)}
+      cost(i) == Cost(Whys(jv, bs[i], at), Len(at)) IN
+  {i \in m1 : \A j \in m1 : cost(i) <= cost(j)}
 Whys(jv, n, at) ==
   IF jv.k = "null" /\ n.nullable /\ n.ref = "" THEN {}       \* `nullable: true` read leniently (OpenAPI 3.0 keyword)
   ELSE
@@ -295,7 +305,7 @@ ResolveNode(n, vals) ==
   IF Branches(n) = <<>> THEN <<n>>
   ELSE LET bs == Branches(n)
            cand == {i \in DOMAIN bs : \E v \in vals : Valid(v, bs[i])}
-           ov(i) == Cardinality((UNION {KeysOf(v) : v \in vals}) \cap PropNames(bs[i]))
+           ov(i) == LET os == {Overlap(v, bs[i]) : v \in vals} IN CHOOSE o \in os : \A o2 \in os : o >= o2
            best == {i \in cand : \A j \in cand : ov(i) >= ov(j)} IN
        IF cand = {} THEN <<>> ELSE <<bs[CHOOSE i \in best : \A j \in best : i <= j]>>
 
